@@ -153,10 +153,7 @@ class TrimTessellate(AbstractTessellate):
         # Get trims from the keyword arguments
         trims = kwargs.pop('trims', [])
 
-        # Update sense if it is not set
-        for trim in trims:
-            if trim.opt_get('reversed') is None:
-                trim.opt = ['reversed', 0]  # always trim the enclosed area by the curve
+        # A trim curve whose sense is not set trims the area which it encloses (the curve itself is left as it is)
 
         # Apply default triangular mesh generator function with trimming customization
         self._vertices, self._faces = self._tsl_func(points, trims=trims, tessellate_func=self._tsl_trim_func,
